@@ -543,6 +543,13 @@ pub fn dump_token(v: &Voronoi) -> String {
     for c in v.cell_face_connections() {
         feed(*c as u64);
     }
+    // the neighbour iterator of every cell (constructed or not): observable behaviour that depends on private per-cell state
+    for c in v.cells() {
+        for j in c.neighbour_ids(v) {
+            feed(j as u64 + 1);
+        }
+        feed(0);
+    }
     // what the tessellation says about itself
     for k in 0..3 {
         feed(v.anchor()[k].to_bits());
